@@ -62,10 +62,21 @@ fn sha1_hex(bs: &[u8]) -> String {
     hex(&h.digest())
 }
 
-fn key_id(key: u64) -> gix_hash::ObjectId {
+/// the object cache is keyed by id: an injective image of (pack, offset)
+fn key_id(pack: u32, off: u64) -> gix_hash::ObjectId {
     let mut b = [0x5au8; 20];
-    b[12..].copy_from_slice(&key.to_be_bytes());
+    b[8..12].copy_from_slice(&pack.to_be_bytes());
+    b[12..].copy_from_slice(&off.to_be_bytes());
     gix_hash::ObjectId::from_bytes_or_panic(&b)
+}
+
+/// `<pack id>.<offset>` or a bare offset (pack 7)
+fn parse_key(tok: &str) -> Option<(u32, u64)> {
+    match tok.split('.').collect::<Vec<_>>().as_slice() {
+        [p, o] => Some((p.parse().ok()?, o.parse().ok()?)),
+        [o] => Some((7, o.parse().ok()?)),
+        _ => None,
+    }
 }
 
 /// the real caches behind one interface
@@ -108,17 +119,17 @@ fn make_cache(spec: &str) -> Option<AnyCache> {
 }
 
 impl AnyCache {
-    fn put(&mut self, key: u64, data: &[u8], kind: gix_object::Kind, packed: usize) {
+    fn put(&mut self, key: (u32, u64), data: &[u8], kind: gix_object::Kind, packed: usize) {
         match self {
-            AnyCache::Pack(c) => c.put(7, key, data, kind, packed),
-            AnyCache::Object(c) => c.put(key_id(key), kind, data),
+            AnyCache::Pack(c) => c.put(key.0, key.1, data, kind, packed),
+            AnyCache::Object(c) => c.put(key_id(key.0, key.1), kind, data),
         }
     }
     /// (kind, data, packed) — the object cache does not store `packed`; 0 stands in (the op generator puts 0 there)
-    fn get(&mut self, key: u64, out: &mut Vec<u8>) -> Option<(gix_object::Kind, usize)> {
+    fn get(&mut self, key: (u32, u64), out: &mut Vec<u8>) -> Option<(gix_object::Kind, usize)> {
         match self {
-            AnyCache::Pack(c) => c.get(7, key, out),
-            AnyCache::Object(c) => c.get(&key_id(key), out).map(|k| (k, 0)),
+            AnyCache::Pack(c) => c.get(key.0, key.1, out),
+            AnyCache::Object(c) => c.get(&key_id(key.0, key.1), out).map(|k| (k, 0)),
         }
     }
 }
@@ -129,13 +140,13 @@ fn do_cache_op(rep: &mut Report, op: &str, args: &[&str]) {
         return;
     };
     let mut obs: Vec<String> = Vec::new();
-    let mut puts: HashMap<u64, Vec<(gix_object::Kind, Vec<u8>, usize)>> = HashMap::new();
+    let mut puts: HashMap<(u32, u64), Vec<(gix_object::Kind, Vec<u8>, usize)>> = HashMap::new();
     let mut out = vec![1u8, 2, 3];
     for tok in &args[1..] {
         let f: Vec<&str> = tok.split('/').collect();
         match f.as_slice() {
             ["p", key, data, kind, packed] => {
-                let (Ok(key), Some(data), Some(kind), Ok(packed)) = (key.parse::<u64>(), parse_data(data), parse_kind(kind), packed.parse::<usize>()) else {
+                let (Some(key), Some(data), Some(kind), Ok(packed)) = (parse_key(key), parse_data(data), parse_kind(kind), packed.parse::<usize>()) else {
                     rep.case(op, "bad-op", false);
                     return;
                 };
@@ -152,7 +163,7 @@ fn do_cache_op(rep: &mut Report, op: &str, args: &[&str]) {
                 puts.entry(key).or_default().push((kind, data, packed));
             }
             ["g", key] => {
-                let Ok(key) = key.parse::<u64>() else {
+                let Some(key) = parse_key(key) else {
                     rep.case(op, "bad-op", false);
                     return;
                 };
@@ -165,7 +176,7 @@ fn do_cache_op(rep: &mut Report, op: &str, args: &[&str]) {
                         if !known {
                             rep.oracle_failure(
                                 &format!("cache-hit {} {}", args[0], args[1..].join(" ")),
-                                &format!("{}: get({key}) returned {kind}, {} bytes, which was never put under that key", args[0], out.len()),
+                                &format!("{}: get(pack {}, offset {}) returned {kind}, {} bytes, which was never put under that key", args[0], key.0, key.1, out.len()),
                                 op,
                             );
                         }
@@ -296,15 +307,24 @@ fn make_repo(dir: &Path, r: &mut Rng, families: usize, versions: usize, lines: u
 }
 
 fn pack_objects(repo: &Path, objects: &[(String, String)], depth: u32, window: u32, ofs: bool, tag: &str) -> Option<PackData> {
+    pack_objects_at(repo, objects, depth, window, ofs, &repo.join(format!("out-{tag}")), false)
+}
+
+/// `git pack-objects` writing `<prefix>-<hash>.{pack,idx}`; `stored`: compression level 0, so that the size of an
+/// entry depends on the length of its data only (equal shapes give equal offsets in different packs)
+fn pack_objects_at(repo: &Path, objects: &[(String, String)], depth: u32, window: u32, ofs: bool, prefix: &Path, stored: bool) -> Option<PackData> {
     let list: String = objects.iter().map(|(id, name)| if name.is_empty() { format!("{id}\n") } else { format!("{id} {name}\n") }).collect();
-    let prefix = repo.join(format!("out-{tag}"));
-    let mut args = vec![
+    let mut args: Vec<String> = Vec::new();
+    if stored {
+        args.extend(["-c".to_string(), "pack.compression=0".into(), "-c".into(), "core.compression=0".into()]);
+    }
+    args.extend([
         "pack-objects".to_string(),
         format!("--depth={depth}"),
         format!("--window={window}"),
         "--no-reuse-delta".into(),
         "-q".into(),
-    ];
+    ]);
     if ofs {
         args.push("--delta-base-offset".into());
     }
@@ -474,9 +494,19 @@ fn gen_cache_line(r: &mut Rng) -> String {
     let object = spec.ends_with(":52");
     let n = 1 + r.usize(40);
     let keys = 1 + r.below(6);
+    // several packs behind one cache: the key is the PAIR (pack id, offset). Ids as gix-odb numbers packs: plain index
+    // files 0,1,…; packs inside a multi-pack index `index | 1 << 15 | pack_in_multi << 16`; and extremes.
+    const PACKS: [u32; 14] = [7, 0, 1, 2, 0x8000, 0x1_8000, 0x2_8000, 0x8001, 0x1_8001, 0x1_0000, 0x1_0001, 0x8000_0000, 0x8000_0001, 0xffff_ffff];
+    let packs: Vec<u32> = match r.below(4) {
+        0 => vec![7],
+        1 => vec![0x8000, 0x1_8000, 0x2_8000],
+        _ => (0..1 + r.usize(4)).map(|_| *r.pick(&PACKS)).collect(),
+    };
     let mut ops = Vec::new();
     for _ in 0..n {
-        let key = r.below(keys);
+        let off = r.below(keys);
+        let pack = *r.pick(&packs);
+        let key = if pack == 7 && r.chance(1, 2) { format!("{off}") } else { format!("{pack}.{off}") };
         if r.chance(3, 5) {
             let len = match r.below(6) {
                 0 => 0,
@@ -484,8 +514,9 @@ fn gen_cache_line(r: &mut Rng) -> String {
                 2 => *r.pick(&[7usize, 8, 9, 15, 16, 17, 31, 32, 33]),
                 _ => r.usize(60),
             };
-            // the value is a function of (key, len, variant): the same key sees several different values
-            let data = format!("g0:{}:{}", key * 1000 + r.below(3), len);
+            // the value is a function of (pack, offset, len, variant): the same key sees several different values, and
+            // the same offset in another pack a different one again
+            let data = format!("g0:{}:{}", (pack as u64 % 9973) * 100_000 + off * 1000 + r.below(3), len);
             let kind = r.pick(&["blob", "tree", "commit", "tag"]);
             ops.push(format!("p/{key}/{data}/{kind}/{}", if object { 0 } else { r.usize(1000) }));
         } else {
@@ -501,6 +532,13 @@ fn pack_level(rep: &mut Report, seed: u64, thorough: bool, scale: u64, scratch: 
     let budget = |quick: u64, thorough_n: u64| (if thorough { thorough_n } else { quick }) * scale;
     PACK_SEED.with(|s| s.set(seed));
     // ---- pack level ----------------------------------------------------------------------------------------------
+    // several packs behind one cache (keys are pairs), and copy instructions beyond 2^24
+    for i in 0..budget(1, 4) {
+        twin_packs(rep, &mut r, &scratch.join(format!("twin{i}")));
+    }
+    for i in 0..budget(1, 2) {
+        big_offset_delta(rep, &mut r, &scratch.join(format!("bigofs{i}")));
+    }
     // small packs: entry graph to the model as well
     let n_small = budget(4, 20);
     for i in 0..n_small {
@@ -588,6 +626,247 @@ thread_local! {
     static PACK_SEED: std::cell::Cell<u64> = std::cell::Cell::new(0);
 }
 
+/// the caches as `gix_odb::Cache` wants them
+fn make_send_cache(spec: &str) -> Option<Box<gix_odb::cache::PackCache>> {
+    use gix_pack::cache::lru::{MemoryCappedHashmap, StaticLinkedList};
+    let parts: Vec<&str> = spec.split(':').collect();
+    Some(match parts.as_slice() {
+        ["never"] => Box::new(gix_pack::cache::Never),
+        ["static", "1", lim] => Box::new(StaticLinkedList::<1>::new(lim.parse().ok()?)),
+        ["static", "2", lim] => Box::new(StaticLinkedList::<2>::new(lim.parse().ok()?)),
+        ["static", "64", lim] => Box::new(StaticLinkedList::<64>::new(lim.parse().ok()?)),
+        ["mem", cap, "0"] => Box::new(MemoryCappedHashmap::new(cap.parse().ok()?)),
+        _ => return None,
+    })
+}
+
+const SHARED_CACHES: [&str; 8] = ["never", "static:1:0", "static:2:0", "static:64:0", "static:64:2000", "mem:700:0", "mem:4000:0", "mem:50000000:0"];
+
+/// Two packs of the same shape (equal object sizes, stored entries → equal offsets) with different contents, read
+/// through ONE cache: (a) directly with `decode_entry` and the pack ids gix-odb gives to packs inside a multi-pack
+/// index, (b) behind `git multi-pack-index write` through one `gix_odb` handle.
+fn twin_packs(rep: &mut Report, r: &mut Rng, dir: &Path) {
+    std::fs::create_dir_all(dir).expect("mkdir");
+    git_ok(dir, &["init", "-q", "."], None);
+    let versions = 9;
+    let mut groups: Vec<Vec<(String, String)>> = Vec::new();
+    for tag in ["A", "B"] {
+        let mut paths = String::new();
+        let mut content: Vec<String> = (0..40).map(|i| format!("{tag} row {i:04} {}", hex(&r.bytes(10)))).collect();
+        for v in 0..versions {
+            let i = (3 * v + 1) % content.len();
+            content[i] = format!("{tag} edt {v:04} {}", hex(&r.bytes(10)));
+            let p = dir.join(format!("{tag}_v{v}"));
+            std::fs::write(&p, content.join("\n") + "\n").expect("write");
+            paths.push_str(&format!("{}\n", p.display()));
+        }
+        let out = git_ok(dir, &["hash-object", "-w", "--stdin-paths"], Some(paths.as_bytes()));
+        groups.push(out.lines().map(|id| (id.to_string(), "same.txt".to_string())).collect());
+    }
+    let pack_dir = dir.join(".git").join("objects").join("pack");
+    std::fs::create_dir_all(&pack_dir).expect("mkdir");
+    let ofs = r.chance(1, 2);
+    let (Some(mut pa), Some(mut pb)) = (
+        pack_objects_at(dir, &groups[0], 50, 10, ofs, &pack_dir.join("pack"), true),
+        pack_objects_at(dir, &groups[1], 50, 10, ofs, &pack_dir.join("pack"), true),
+    ) else {
+        rep.note("could not build the twin packs");
+        return;
+    };
+    let delta_offsets = |pd: &PackData| -> Vec<u64> {
+        pd.entries.iter().filter_map(|(o, _)| pd.pack.entry(*o).ok()).filter(|e| e.header.is_delta()).map(|e| e.data_offset).collect()
+    };
+    let (da, db) = (delta_offsets(&pa), delta_offsets(&pb));
+    let shared = da.iter().filter(|o| db.contains(o)).count();
+    rep.bucket(if shared > 0 { "twin:packs-share-delta-offsets" } else { "twin:NO-shared-delta-offsets" });
+    if shared == 0 {
+        rep.note("twin packs: no delta entry at the same data offset in both packs (the scenario is weaker than intended)");
+    }
+    let seedop = format!("packs {}", PACK_SEED.with(|s| s.get()));
+    // (a) one cache, two packs, ids as gix-odb assigns them
+    for (ida, idb) in [(0x8000u32, 0x1_8000u32), (0x8001, 0x1_8001), (0, 1), (0, 0x1_0000), (7, 0x8000_0007)] {
+        pa.pack.id = ida;
+        pb.pack.id = idb;
+        for spec in SHARED_CACHES {
+            let Some(AnyCache::Pack(mut cache)) = make_cache(spec) else { continue };
+            let mut out = Vec::new();
+            let mut inflate = gix_features::zlib::Inflate::default();
+            let mut reqs: Vec<(bool, u64, gix_hash::ObjectId)> = Vec::new();
+            for _ in 0..3 {
+                for (o, id) in &pa.entries {
+                    reqs.push((true, *o, *id));
+                }
+                for (o, id) in &pb.entries {
+                    reqs.push((false, *o, *id));
+                }
+            }
+            r.shuffle(&mut reqs);
+            // and strictly alternating runs over the same positions of both packs
+            for k in 0..pa.entries.len().min(pb.entries.len()) {
+                reqs.push((true, pa.entries[k].0, pa.entries[k].1));
+                reqs.push((false, pb.entries[k].0, pb.entries[k].1));
+            }
+            for (is_a, offset, id) in reqs {
+                let pd = if is_a { &pa } else { &pb };
+                let key = format!("twin-packs ids={ida:#x}/{idb:#x} cache={spec} pack={} id={id}", if is_a { "A" } else { "B" });
+                rep.oracle_only(&key, true);
+                rep.oracle_checked();
+                rep.git_checked(1);
+                match decode_one(pd, offset, &mut out, &mut inflate, cache.as_mut()) {
+                    Ok(Ok(o)) => {
+                        let (t, bytes) = &pd.truth[&id];
+                        if &o.kind.to_string() != t || &out != bytes {
+                            rep.oracle_failure(
+                                &key,
+                                &format!("two packs behind one cache: decode_entry gives {} with {} bytes (sha1 {}), git cat-file says {t} with {} bytes (sha1 {})", o.kind, out.len(), sha1_hex(&out), bytes.len(), sha1_hex(bytes)),
+                                &seedop,
+                            );
+                        }
+                    }
+                    other => rep.oracle_failure(&key, &format!("decode_entry: {:?}", other.map(|r| r.map(|_| ()))), &seedop),
+                }
+            }
+        }
+    }
+    // (b) the same two packs behind a multi-pack index, one gix_odb handle, each pack cache
+    let _ = git(dir, &["prune-packed", "-q"], None);
+    let o = git(dir, &["multi-pack-index", "write"], None);
+    if !o.ok || !pack_dir.join("multi-pack-index").is_file() {
+        rep.note("git multi-pack-index write failed");
+        return;
+    }
+    let ids: Vec<String> = groups.iter().flatten().map(|o| o.0.clone()).collect();
+    let truth = git_batch_all(dir, &ids);
+    for spec in SHARED_CACHES {
+        let Ok(handle) = gix_odb::at(dir.join(".git").join("objects")) else { continue };
+        let mut cache: gix_odb::Cache<gix_odb::Handle> = gix_odb::Cache::from(handle);
+        if let Some(c) = make_send_cache(spec) {
+            let spec_owned = spec.to_string();
+            drop(c);
+            cache = cache.with_pack_cache(move || make_send_cache(&spec_owned).expect("a known cache"));
+        }
+        let mut order: Vec<String> = Vec::new();
+        for k in 0..versions {
+            order.push(groups[0][k].0.clone());
+            order.push(groups[1][k].0.clone());
+        }
+        let mut extra: Vec<String> = (0..ids.len() * 2).map(|_| ids[r.usize(ids.len())].clone()).collect();
+        order.append(&mut extra);
+        let mut buf = Vec::new();
+        for idhex in &order {
+            let id = gix_hash::ObjectId::from_hex(idhex.as_bytes()).expect("hex");
+            let key = format!("multi-pack-index cache={spec} id={id}");
+            rep.oracle_only(&key, true);
+            rep.oracle_checked();
+            rep.git_checked(1);
+            use gix_object::Find;
+            match catch(|| cache.try_find(&id, &mut buf).map(|o| o.map(|d| (d.kind, d.data.to_vec()))).map_err(|e| e.to_string())) {
+                Ok(Ok(Some((k, d)))) => {
+                    let (t, bytes) = &truth[&id];
+                    if &k.to_string() != t || &d != bytes {
+                        rep.oracle_failure(
+                            &key,
+                            &format!("two packs of a multi-pack index through one handle: try_find gives {k} with {} bytes (sha1 {}), git says {t} with {} bytes (sha1 {})", d.len(), sha1_hex(&d), bytes.len(), sha1_hex(bytes)),
+                            &seedop,
+                        );
+                    }
+                }
+                other => rep.oracle_failure(&key, &format!("try_find: {:?}", other.map(|r| r.map(|o| o.map(|(k, d)| (k, d.len()))))), &seedop),
+            }
+        }
+        rep.bucket("twin:multi-pack-index-handle");
+    }
+}
+
+/// a delta whose copy instructions reach beyond 2^24 in the base: two near-identical blobs of 17 MiB
+fn big_offset_delta(rep: &mut Report, r: &mut Rng, dir: &Path) {
+    std::fs::create_dir_all(dir).expect("mkdir");
+    git_ok(dir, &["init", "-q", "."], None);
+    let n = 17 * 1024 * 1024 + r.usize(5000);
+    let a = gen_bytes(0, r.u64(), n);
+    let mut b = a.clone();
+    // an insertion near the start (shifts everything), a change in the middle and one near the end
+    let ins_len = 3 + r.usize(40);
+    let ins = r.bytes(ins_len);
+    b.splice(1000..1000, ins);
+    for k in 0..16 {
+        b[n / 2 + k] ^= 0x55;
+        let l = b.len();
+        b[l - 5000 + k] ^= 0xaa;
+    }
+    std::fs::write(dir.join("a"), &a).expect("write");
+    std::fs::write(dir.join("b"), &b).expect("write");
+    let paths = format!("{}\n{}\n", dir.join("a").display(), dir.join("b").display());
+    let out = git_ok(dir, &["-c", "core.compression=0", "hash-object", "-w", "--stdin-paths"], Some(paths.as_bytes()));
+    let objects: Vec<(String, String)> = out.lines().map(|id| (id.to_string(), "big.bin".to_string())).collect();
+    let Some(pd) = pack_objects_at(dir, &objects, 10, 10, r.chance(1, 2), &dir.join("out-big"), true) else {
+        rep.note("could not build the pack with the 17 MiB blobs");
+        return;
+    };
+    // is there a copy instruction with the fourth offset byte?
+    let mut inflate = gix_features::zlib::Inflate::default();
+    let mut found = false;
+    for (offset, _) in &pd.entries {
+        let Ok(entry) = pd.pack.entry(*offset) else { continue };
+        if !entry.header.is_delta() {
+            continue;
+        }
+        let mut buf = vec![0u8; entry.decompressed_size as usize];
+        if pd.pack.decompress_entry(&entry, &mut inflate, &mut buf).is_err() {
+            continue;
+        }
+        // skip the two size headers, then walk the instructions
+        let mut i = 0;
+        for _ in 0..2 {
+            while i < buf.len() && buf[i] & 0x80 != 0 {
+                i += 1;
+            }
+            i += 1;
+        }
+        while i < buf.len() {
+            let cmd = buf[i];
+            i += 1;
+            if cmd & 0x80 != 0 {
+                if cmd & 0x08 != 0 {
+                    found = true;
+                }
+                i += (cmd & 0x7f).count_ones() as usize;
+            } else {
+                i += cmd as usize;
+            }
+        }
+    }
+    rep.bucket(if found { "pack:copy-from-offset>=2^24" } else { "pack:NO-copy-from-offset>=2^24" });
+    if !found {
+        rep.note("the 17 MiB pair did not produce a copy instruction with a fourth offset byte");
+    }
+    let seedop = format!("packs {}", PACK_SEED.with(|s| s.get()));
+    for spec in ["never", "static:64:0"] {
+        let Some(AnyCache::Pack(mut cache)) = make_cache(spec) else { continue };
+        let mut out = Vec::new();
+        for (offset, id) in pd.entries.iter().chain(pd.entries.iter()) {
+            let key = format!("big-offset-delta cache={spec} id={id}");
+            rep.oracle_only(&key, true);
+            rep.oracle_checked();
+            rep.git_checked(1);
+            match decode_one(&pd, *offset, &mut out, &mut inflate, cache.as_mut()) {
+                Ok(Ok(o)) => {
+                    let (t, bytes) = &pd.truth[id];
+                    if &o.kind.to_string() != t || &out != bytes {
+                        let first_diff = out.iter().zip(bytes.iter()).position(|(x, y)| x != y);
+                        rep.oracle_failure(
+                            &key,
+                            &format!("decode_entry of a {}-byte blob (delta chain {}) differs from git cat-file: {} vs {} bytes, first difference at byte {:?}", bytes.len(), o.num_deltas, out.len(), bytes.len(), first_diff),
+                            &seedop,
+                        );
+                    }
+                }
+                other => rep.oracle_failure(&key, &format!("decode_entry: {:?}", other.map(|r| r.map(|_| ()))), &seedop),
+            }
+        }
+    }
+}
+
 fn main() {
     let args = Args::parse();
     let mut rep = Report::new("C08", &args);
@@ -624,6 +903,11 @@ fn main() {
         "cache mem:1:0 p/1/-/blob/0 g/1 p/2/61/blob/1 g/2",
         "cache mem:10:0 p/1/g0:1:4/blob/1 p/2/g0:2:4/blob/1 g/1 g/2 p/1/g0:3:20/blob/1 g/1",
         "cache mem:60:52 p/1/g0:1:4/blob/0 g/1 p/2/g0:2:4/blob/0 g/1 g/2",
+        "cache static:64:0 p/32768.12/6161/blob/2 p/98304.12/6262/tree/2 g/32768.12 g/98304.12 g/163840.12",
+        "cache static:2:0 p/0.5/61/blob/1 p/65536.5/62/blob/1 g/0.5 g/65536.5 g/1.5",
+        "cache static:64:0 p/2147483648.9/61/blob/1 p/0.9/62/tag/1 g/2147483648.9 g/0.9 p/4294967295.9/63/blob/1 g/4294967295.9 g/65535.9",
+        "cache mem:1000:0 p/32768.12/6161/blob/2 p/98304.12/6262/tree/2 g/32768.12 g/98304.12",
+        "cache mem:1000:52 p/32768.12/6161/blob/0 p/98304.12/6262/tree/0 g/32768.12 g/98304.12",
     ];
     for op in corpus {
         let a: Vec<&str> = op.split(' ').collect();
